@@ -93,6 +93,63 @@ func genOwnership() {
 	m.strs("buildGRPCRouteHead", routeHead("grpcroute.go", "buildGRPCRoute"), "buildGRPCRoute up to the assignment of ParentRefs")
 	m.strs("buildTLSRouteHead", routeHead("tlsroute.go", "buildTLSRoute"), "buildTLSRoute up to the assignment of ParentRefs")
 
+	// --- SnippetsFilters: where the Referenced flag is set, the position of the resolver call inside
+	// build{HTTP,GRPC}Route (AFTER the parentRef check), and its only consumer on the configuration side
+	hrS := src(gdir + "httproute.go")
+	m.strs("buildHTTPRouteBody", hrS.stmts(hrS.fn("", "buildHTTPRoute").Body), "statements of buildHTTPRoute")
+	grS := src(gdir + "grpcroute.go")
+	m.strs("buildGRPCRouteBody", grS.stmts(grS.fn("", "buildGRPCRoute").Body), "statements of buildGRPCRoute")
+	sfS := src(gdir + "snippets_filter.go")
+	var resolver []string
+	walk(sfS.fn("", "getSnippetsFilterResolverForNamespace").Body, func(n ast.Node) bool {
+		if fl, ok := n.(*ast.FuncLit); ok && resolver == nil {
+			resolver = sfS.stmts(fl.Body)
+			return false
+		}
+		return true
+	})
+	m.strs("snippetsFilterResolverBody", resolver, "statements of the closure returned by getSnippetsFilterResolverForNamespace")
+	var refWrites []string
+	for _, f := range []string{"snippets_filter.go", "httproute.go", "grpcroute.go", "route_common.go", "common_filter.go", "graph.go",
+		"extension_ref_filter.go"} {
+		fs := src(gdir + f)
+		walk(fs.f, func(n ast.Node) bool {
+			if as, ok := n.(*ast.AssignStmt); ok {
+				for _, l := range as.Lhs {
+					if sel, ok := l.(*ast.SelectorExpr); ok && sel.Sel.Name == "Referenced" {
+						refWrites = append(refWrites, f+": "+fs.text(as))
+					}
+				}
+			}
+			if kv, ok := n.(*ast.KeyValueExpr); ok && fs.text(kv.Key) == "Referenced" {
+				refWrites = append(refWrites, f+": "+fs.text(kv))
+			}
+			return true
+		})
+	}
+	m.strs("snippetsFilterReferencedWrites", refWrites, "every assignment to a field named Referenced in the graph package files that handle filters")
+	cf := src(gdir + "common_filter.go")
+	m.strs("processRouteRuleFiltersBody", cf.stmts(cf.fn("", "processRouteRuleFilters").Body), "statements of processRouteRuleFilters")
+	var resolverCalls []string
+	for _, f := range []string{"httproute.go", "grpcroute.go", "route_common.go", "common_filter.go", "tlsroute.go"} {
+		fs := src(gdir + f)
+		for _, d := range fs.f.Decls {
+			fd, ok := d.(*ast.FuncDecl)
+			if !ok || fd.Body == nil {
+				continue
+			}
+			for _, c := range fs.calls(fd.Body, "getSnippetsFilterResolverForNamespace") {
+				resolverCalls = append(resolverCalls, f+" "+fd.Name.Name+": "+fs.text(c))
+			}
+			for _, c := range fs.calls(fd.Body, "resolveExtRefFunc") {
+				resolverCalls = append(resolverCalls, f+" "+fd.Name.Name+": "+fs.text(c))
+			}
+		}
+	}
+	m.strs("snippetsFilterResolverCalls", resolverCalls, "call sites of getSnippetsFilterResolverForNamespace and of the resolver")
+	dp := src("internal/mode/static/state/dataplane/configuration.go")
+	m.strs("buildSnippetsForContextBody", dp.stmts(dp.fn("", "buildSnippetsForContext").Body), "statements of dataplane.buildSnippetsForContext")
+
 	// --- referenced services
 	sv := src(gdir + "service.go")
 	m.strs("buildReferencedServicesBody", sv.stmts(sv.fn("", "buildReferencedServices").Body), "statements of buildReferencedServices")
@@ -144,6 +201,23 @@ func genOwnership() {
 		return true
 	})
 	m.strs("updateStatusesPrepareCalls", prep, "status.Prepare*Requests calls of updateStatuses with their graph arguments")
+	// the two UpdateGroup calls of updateStatuses and what the first group is made of
+	var groupCalls []string
+	walk(us.Body, func(n ast.Node) bool {
+		switch x := n.(type) {
+		case *ast.CallExpr:
+			if strings.HasSuffix(h.text(x.Fun), ".UpdateGroup") {
+				groupCalls = append(groupCalls, h.text(x))
+			}
+			if id, ok := x.Fun.(*ast.Ident); ok && id.Name == "append" && len(x.Args) > 0 && h.text(x.Args[0]) == "reqs" {
+				groupCalls = append(groupCalls, h.text(x))
+			}
+		}
+		return true
+	})
+	m.strs("updateStatusesGroupCalls", groupCalls, "appends to reqs and UpdateGroup calls of updateStatuses, in source order")
+	m.str("groupAllExceptGateways", h.strConst("groupAllExceptGateways"), "handler.go groupAllExceptGateways")
+	m.str("groupGateways", h.strConst("groupGateways"), "handler.go groupGateways")
 
 	// --- Prepare*Requests: the loop heads (what is ranged over) and the skip conditions
 	ps := src("internal/mode/static/status/prepare_requests.go")
